@@ -181,6 +181,21 @@ SNIPPETS = [
      'unsupported-symbolic'),
     ({'n': 7}, "a = b = []\na.append(n)\nr = b"),
     ({'x': 'k'}, "d = {'k': 1}\nr = [d.pop(x), len(d)]", 'unsupported-symbolic'),
+    # --- regex flags -------------------------------------------------------
+    ({'x': 'b\na'}, "r = 1 if re.compile(r'^a', re.M).match(x) else 0"),
+    ({'x': 'a\nb'}, "r = 1 if re.compile(r'^a$', re.M).match(x) else 0"),
+    ({'x': 'a\nb'}, "r = 1 if re.compile(r'^a$').match(x) else 0"),
+    ({'x': 'A'}, "r = 1 if re.compile(r'^a$', re.I).match(x) else 0",
+     'unsupported'),
+    ({'x': 'a\n'}, "r = 1 if re.compile(r'^a\\Z').match(x) else 0"),
+    ({'x': 'a\nb'}, "r = 1 if re.compile(r'^a.b$', re.S).match(x) else 0"),
+    ({'x': 'a\nb'}, "r = 1 if re.compile(r'^a.b$').match(x) else 0"),
+    # --- arguments the models do not understand must not be ignored --------
+    ({'x': b'abcabc'}, "r = x.find(b'c', 0, 2)", 'unsupported'),
+    ({'x': b'abc'}, "r = x.startswith(b'b', 1)", 'unsupported'),
+    ({'x': 'ff'}, "r = int(x, 16)", 'unsupported'),
+    ({'x': 'café'}, "r = x.encode('ascii', 'replace')", 'unsupported'),
+    ({'x': b'  a '}, "r = x.strip(b' ')", 'unsupported'),
 ]
 
 
